@@ -355,6 +355,7 @@ Definition discharge_stmt (d : discharge) : Prop :=
         forall k, rebuild entries k = rebuild entries' k
   | D_PureFloat => True     (* classification by reading: see model/M_NondetAllow.v *)
   | D_Telemetry => True     (* classification by reading *)
+  | D_WiringOnly => True    (* classification by reading *)
   end.
 
 Lemma discharge_sound : forall d, discharge_stmt d.
